@@ -236,8 +236,8 @@ def run_lines(binary, reqs, timeout=3600, env=None, cwd=None):
     data = "".join(json.dumps(r, ensure_ascii=True) + "\n" for r in reqs)
     p = subprocess.run([binary], input=data, capture_output=True, text=True, timeout=timeout, env=env, cwd=cwd)
     outs = []
-    for line in p.stdout.splitlines():
-        line = line.strip()
+    for line in p.stdout.split("\n"):      # not splitlines(): replies may contain U+0085, U+001C.. inside strings
+        line = line.strip(" \r\t")
         if not line:
             continue
         try:
